@@ -54,7 +54,7 @@ type Case struct {
 	Type     string
 	Variant  string
 	ID       uint32
-	Route    string // "handle", "key", "subtle"; DrawTypeRoutes only: "fullprim", "keymanager"
+	Route    string // the route that RAN: "handle", "key" (AES-GCM and XAES-256-GCM only, see build), "subtle", "fullprim", "keymanager"
 	Key      []byte // AES / ChaCha key
 	MacKey   []byte // AES-CTR-HMAC only
 	Hash     string // AES-CTR-HMAC only
@@ -67,10 +67,11 @@ type Case struct {
 }
 
 func (c *Case) String() string {
-	s := fmt.Sprintf("%s/%s id=%#x route=%s key=%s", c.Type, c.Variant, c.ID, c.Route, gen.Hex(c.Key))
+	// keys in full: a printed case must be a complete reproduction
+	s := fmt.Sprintf("%s/%s id=%#x route=%s key=%x", c.Type, c.Variant, c.ID, c.Route, c.Key)
 	switch c.Type {
 	case "AESCTRHMAC":
-		s += fmt.Sprintf(" mackey=%s hash=%s iv=%d tag=%d", gen.Hex(c.MacKey), c.Hash, c.IVSize, c.TagSize)
+		s += fmt.Sprintf(" mackey=%x hash=%s iv=%d tag=%d", c.MacKey, c.Hash, c.IVSize, c.TagSize)
 	case "XAESGCM":
 		s += fmt.Sprintf(" salt=%d", c.SaltSize)
 	}
@@ -80,6 +81,24 @@ func (c *Case) String() string {
 // Class is the evidence class (type, key size, variant, route).
 func (c *Case) Class() string {
 	return fmt.Sprintf("%s%d/%s/%s", c.Type, len(c.Key)*8, c.Variant, c.Route)
+}
+
+// SubClass names, for AES-CTR-HMAC, the point of the product hash x IV size x tag size class
+// (min = 10, max = digest size, mid = between) this case sits on; "" for the other types. The
+// property packages count it (evid.Add) so that the evidence shows the product the quantifier names
+// without multiplying every class of the histogram by 75.
+func (c *Case) SubClass() string {
+	if c.Type != "AESCTRHMAC" {
+		return ""
+	}
+	tag := "mid"
+	switch c.TagSize {
+	case 10:
+		tag = "min"
+	case digest[c.Hash]:
+		tag = "max"
+	}
+	return fmt.Sprintf("%s/iv=%d/tag=%s", c.Hash, c.IVSize, tag)
 }
 
 // Prefix is the expected output prefix by the harness's own table.
@@ -153,12 +172,13 @@ func (c *Case) RefOpenFull(ct, ad []byte) ([]byte, error) {
 }
 
 func drawKeyLen(t *rapid.T, label string) int {
-	return rapid.SampledFrom([]int{16, 32}).Draw(t, label)
+	return gen.Pick(t, label, []int{16, 32})
 }
 
-// Draw draws a usable AEAD configuration of any type.
+// Draw draws a usable AEAD configuration of any type. (Which type / route / variant / hash: equal
+// weights, gen.Pick; sizes keep rapid's edge bias.)
 func Draw(t *rapid.T) *Case {
-	return DrawType(t, rapid.SampledFrom(Types).Draw(t, "aeadtype"))
+	return DrawType(t, gen.Pick(t, "aeadtype", Types))
 }
 
 // DrawType draws a usable configuration of the given type and builds its primitive.
@@ -166,7 +186,10 @@ func DrawType(t *rapid.T, typ string) *Case {
 	return DrawTypeRoutes(t, typ, []string{"handle", "key", "subtle"})
 }
 
-// RoutesAll are the routes DrawTypeRoutes knows. Beyond the three of Draw:
+// RoutesAll are the routes DrawTypeRoutes knows. "key" = the exported per-key constructor; only
+// AES-GCM (aesgcm.NewAEAD) and XAES-256-GCM (xaesgcm.NewAEAD) have one. For the other four types a
+// drawn "key" runs, and is recorded as, "fullprim" (the same per-key object, reached through the
+// primitive registry). Beyond the three of Draw:
 // "fullprim" = the per-key full primitive (prefix-aware) obtained from the internal primitive
 // registry, i.e. the object the keyset wrapper calls, without the wrapper around it;
 // "keymanager" = the serialized key through the global registry's key manager
@@ -175,7 +198,7 @@ var RoutesAll = []string{"handle", "key", "subtle", "fullprim", "keymanager"}
 
 // DrawRoutes is Draw over the given routes (routes a type does not offer are left out).
 func DrawRoutes(t *rapid.T, routes []string) *Case {
-	return DrawTypeRoutes(t, rapid.SampledFrom(Types).Draw(t, "aeadtype"), routes)
+	return DrawTypeRoutes(t, gen.Pick(t, "aeadtype", Types), routes)
 }
 
 // DrawTypeRoutes draws a usable configuration of the given type over the given routes.
@@ -191,10 +214,10 @@ func DrawTypeRoutes(t *rapid.T, typ string, routes []string) *Case {
 		}
 		routes = r
 	}
-	c.Route = rapid.SampledFrom(routes).Draw(t, "route")
+	c.Route = gen.Pick(t, "route", routes)
 	c.Variant = tk.NoPrefix
 	if c.Route != "subtle" {
-		c.Variant = rapid.SampledFrom(VariantsFor(typ)).Draw(t, "variant")
+		c.Variant = gen.Pick(t, "variant", VariantsFor(typ))
 	}
 	if c.Variant != tk.NoPrefix {
 		c.ID = gen.KeyID(t, "id")
@@ -209,11 +232,11 @@ func DrawTypeRoutes(t *rapid.T, typ string, routes []string) *Case {
 		c.NonceLen = 24
 	case "XAESGCM":
 		c.Key = gen.BytesN(t, "key", 32)
-		c.SaltSize = rapid.IntRange(8, 12).Draw(t, "saltsize")
+		c.SaltSize = 8 + gen.Uniform(t, "saltsize", 5)
 		c.NonceLen = c.SaltSize + 12
 	case "AESCTRHMAC":
 		c.Key = gen.BytesN(t, "key", drawKeyLen(t, "keylen"))
-		c.Hash = rapid.SampledFrom(hashNames).Draw(t, "hash")
+		c.Hash = gen.Pick(t, "hash", hashNames)
 		block := 64
 		if c.Hash == "SHA384" || c.Hash == "SHA512" {
 			block = 128
@@ -223,7 +246,7 @@ func DrawTypeRoutes(t *rapid.T, typ string, routes []string) *Case {
 			mk = rapid.SampledFrom([]int{16, 32, block - 1, block, block + 1}).Draw(t, "mackeyedgeval")
 		}
 		c.MacKey = gen.BytesN(t, "mackey", mk)
-		c.IVSize = rapid.IntRange(12, 16).Draw(t, "ivsize")
+		c.IVSize = 12 + gen.Uniform(t, "ivsize", 5) // five sizes, each a fifth: a dimension of the quantifier's product
 		c.NonceLen = c.IVSize
 		c.TagSize = rapid.IntRange(10, digest[c.Hash]).Draw(t, "tagsize")
 		if rapid.IntRange(0, 3).Draw(t, "tagedge") == 0 {
@@ -275,7 +298,10 @@ func (c *Case) build() error {
 			c.P, err = xaesgcm.NewAEAD(kk, internalapi.Token{})
 			return err
 		}
-		// the other types export no per-key constructor: use a one-key handle as well
+		// The other types export no per-key constructor. The per-key object is still reachable without
+		// the keyset wrapper, through the primitive registry: that is the route that runs, and the
+		// route the case is labelled with (it used to run "handle" under the label "key").
+		c.Route = "fullprim"
 	}
 	switch c.Route {
 	case "fullprim":
